@@ -688,6 +688,34 @@ func noteClose(front, key string, fs *cs.FrontSession) {
 	w.mu.Unlock()
 }
 
+// reqObs: what a finished (not suspended) client request reports — where the handler ran and with which
+// envelope, the statement results, the answer, the connection's map when the front relayed the answer
+func (w *world) reqObs(c *node.Client, ckey string, q int, r *rec) string {
+	resp := "none"
+	for _, m := range c.Take() {
+		if m.Kind == "response" && m.ID == uint(1+q%60000) {
+			if resp != "none" {
+				resp = "TWICE"
+			} else if m.Err {
+				resp = "err"
+			} else {
+				resp = "ok"
+			}
+		}
+	}
+	r.mu.Lock()
+	head, starts := r.head, r.starts
+	r.mu.Unlock()
+	if starts == 0 {
+		return "at=none resp=" + resp
+	}
+	relay := "-"
+	if resp == "ok" {
+		relay = w.takeRelay(ckey, uint(1+q%60000))
+	}
+	return head + " r=" + r.render() + " resp=" + resp + " relay=" + relay
+}
+
 func connKey(front string, ord int) string { return front + "#" + strconv.Itoa(ord) }
 
 func isFront(name string) bool {
@@ -773,6 +801,72 @@ func exec1(op string) string {
 			impls.AddOnSessionOnClose(ns, c.NetId(), func(_ *service.NodeService, fs *cs.FrontSession) { noteClose(f, key, fs) })
 		})
 		return w.ordTok(f, float64(c.NetId()), false)
+
+	case "openreq":
+		// a client connects while the front-end is BUSY (inside a task of its own) and sends its first message at
+		// once: the connection's reader goroutine hands over OnSessionCreate and then the message while the
+		// front-end has not yet registered the session (AddSession is still queued); the front-end then runs both,
+		// in the order they were posted.  Observation: the connection id, then what `req` reports.
+		f := kv("f")
+		// `cl=1`: the client hangs up right behind its first message (the reader sees EOF: Close(), RemoveSession is
+		// queued behind the message task).  Only for a front-local first message: a forwarded one would race the
+		// queued removal against what the back-end handler sends.
+		hangup := kv("cl") == "1"
+		if !isFront(f) || (hangup && svcTypes[f] != kv("svc")) {
+			return "bad-op"
+		}
+		sched := n.Service(f).GetRunService().GetScheduler()
+		started, rel := make(chan struct{}), make(chan struct{})
+		sched.Post(func() { close(started); <-rel })
+		<-started
+		released := false
+		release := func() {
+			if !released {
+				released = true
+				close(rel)
+				n.Wait()
+			}
+		}
+		defer release()
+		c := n.Connect(f)
+		early := c.NetId() // 0 as long as the front-end has not registered the session
+		key := connKey(f, w.nOpen[f]+1)
+		// queued right behind AddSession, before the first message (what `open` does after the fact)
+		sched.Post(func() {
+			if fs := n.Sessions(f).GetSession(c.NetId()); fs != nil {
+				fs.Session = &spy{IClientSession: fs.Session, fs: fs, front: f, key: key}
+			}
+			impls.AddOnSessionOnClose(n.Service(f), c.NetId(), func(_ *service.NodeService, fs *cs.FrontSession) { noteClose(f, key, fs) })
+		})
+		if !c.Open() {
+			return "fail"
+		}
+		q, r := w.newRec()
+		defer w.dropRec(q)
+		arg, _ := json.Marshal(&zooArg{Q: q, S: kv("s")})
+		ntf := kv("ntf") == "1"
+		if ntf {
+			c.Notify(kv("svc")+".zoo.tell", arg)
+		} else {
+			c.Request(uint(1+q%60000), kv("svc")+".zoo.run", arg)
+		}
+		if hangup {
+			c.Close()
+		}
+		r.mu.Lock()
+		if early != 0 || r.starts != 0 || c.NetId() != 0 {
+			w.h.Count("ASSUMPTION-BROKEN.openreq-front-not-busy")
+		}
+		r.mu.Unlock()
+		release()
+		w.total[f]++
+		w.nOpen[f]++
+		if c.NetId() != w.realNet(f, w.nOpen[f]) {
+			w.h.Count("ASSUMPTION-BROKEN.netid-sequence")
+		}
+		w.conns[key] = c
+		w.h.Count("openreq." + svcTypes[f] + "->" + kv("svc") + map[bool]string{true: ".hangup", false: ""}[hangup])
+		return w.ordTok(f, float64(c.NetId()), false) + " " + w.reqObs(c, key, q, r)
 
 	case "close":
 		key := connKey(kv("f"), hx.KVInt(ws, "n"))
@@ -1550,8 +1644,45 @@ func (g *gen) caseOps(nops int) []string {
 				}
 			}
 		case x < 91:
-			g.h.Count("op.open")
 			f := frontNames[r.Intn(2)]
+			if r.Intn(2) == 0 {
+				// a client connects while the front-end is busy and sends its first message at once: the message is
+				// handed over by the reader goroutine BEFORE the front-end has registered the connection (AddSession
+				// still queued).  It must be handled as a message of exactly that connection: envelope, routing
+				// (mostly the rule-less type: a fresh session names no chat instance), the handler's pushes / queries,
+				// the answer; then the connection's next forwarded request and the maps.
+				svc := []string{"room", "room", "room", "gate", "chat"}[r.Intn(5)]
+				sc := g.script(svc == "gate", false)
+				switch r.Intn(3) {
+				case 0:
+					sc = "query;get/" + hk(cs.KeyNetId) + ";" + sc
+				case 1:
+					sc = "set/" + hk("chatid") + "/" + valField([]string{"chat-1", "chat-2"}[r.Intn(2)]) + ";push;" + sc
+				}
+				g.nOpen[f]++
+				if svc == "gate" && r.Intn(2) == 0 {
+					// ... and hangs up right behind it: the message is still handled (the session exists when its task
+					// runs), the answer is lost, then the queued removal runs — the connection must not stay registered:
+					// a session made for it pushes into nothing and its query reports an error
+					g.h.Count("op.openreq.hangup")
+					ops = append(ops, fmt.Sprintf("openreq f=%s svc=%s ntf=%d s=%s cl=1", f, svc, hx.B2i(r.Intn(6) == 0), sc))
+					g.nh++
+					hn := "h" + strconv.Itoa(g.nh)
+					g.handles = append(g.handles, hn)
+					g.target[hn] = connKey(f, g.nOpen[f])
+					ops = append(ops, fmt.Sprintf("mk h=%s at=chat-1 f=%s n=%d uid=", hn, f, g.nOpen[f]),
+						fmt.Sprintf("on h=%s s=set/%s/%s;push;query;json", hn, hk("k"), valField("ghost")), "snap")
+					break
+				}
+				g.open[f] = append(g.open[f], g.nOpen[f])
+				g.h.Count("op.openreq." + svc)
+				ops = append(ops, fmt.Sprintf("openreq f=%s svc=%s ntf=%d s=%s", f, svc, hx.B2i(r.Intn(6) == 0), sc))
+				if r.Intn(2) == 0 {
+					ops = append(ops, fmt.Sprintf("req f=%s n=%d svc=%s ntf=0 s=%s", f, g.nOpen[f], []string{"chat", "room"}[r.Intn(2)], "id;query;json"), "snap")
+				}
+				break
+			}
+			g.h.Count("op.open")
 			open(f)
 			if r.Intn(3) > 0 {
 				ops = append(ops, fmt.Sprintf("req f=%s n=%d svc=gate ntf=0 s=set/%s/%s", f, g.nOpen[f], hk("chatid"), valField([]string{"chat-1", "chat-2"}[r.Intn(2)])))
